@@ -52,6 +52,17 @@ pub fn compile(src: &str, d: Option<Dialect>) -> Compiled {
     }
 }
 
+/// like `compile`, with the default output formatting (`Options::format = true`)
+pub fn compile_formatted(src: &str, d: Option<Dialect>) -> Compiled {
+    let mut o = opts(d);
+    o.format = true;
+    match catch(|| prqlc::compile(src, &o)) {
+        Ok(Ok(sql)) => Compiled::Sql(sql),
+        Ok(Err(e)) => Compiled::Err(err_reasons(&e)),
+        Err(p) => Compiled::Panic(p),
+    }
+}
+
 /// short, stable class name for an error reason (digits and quoted names removed)
 pub fn reason_class(r: &str) -> String {
     let mut out = String::new();
